@@ -27,7 +27,8 @@ RULE = ("fault = an extreme-but-legal uniform (0.0, 5e-324, 2**-53, 0.5, 1-2**-5
         "check: no exception, value in the support, twin equality (equal parameters "
         "on equally scripted streams, same number of uniforms consumed), isolation "
         "(two instances interleaved == each alone), re-pointing (old stream never "
-        "consumed again, cached Gaussian dropped), quantity wrapper draws in its "
+        "consumed again, cached Gaussian dropped; also when the new stream is a distinct "
+        "object that compares equal to the old one), quantity wrapper draws in its "
         "unit; plus constructor probes with parameters outside the documented "
         "domain. non-trivial = at least one injected extreme uniform was actually "
         "consumed by a draw; distinct = digest of (class, parameters, fault plan)")
